@@ -8,6 +8,8 @@ mkdir -p work
 python3 tools/translate.py
 [ -f harness/Cargo.lock ] || cp /repo/Cargo.lock harness/Cargo.lock
 (cd harness && cargo build --offline --release 2>&1 | tail -2 && cargo build --offline 2>&1 | tail -2)
+# the crate's own command-line program WITHOUT the observation feature (production-binary differential, DESIGN 4.4)
+cargo build --offline --release --bin nederlang --manifest-path /repo/Cargo.toml --target-dir "$PWD/work/target-prod" 2>&1 | tail -1
 cd coq
 coq_makefile -f _CoqProject -o Makefile >/dev/null
 timeout 3000 make -j16 2>&1 | grep -E "^(COQC|make|Error|File)" | tail -40
